@@ -161,4 +161,21 @@ example : ∀ i, (demoA, i) ∉ (run (init {}) demoExpiry).clients := by
   simp [inlineID, demoA, demoB] at h
 example : indexEntries (run (init {}) demoExpiry).topics = [(demoB, [98])] := by decide
 
+/-! ### the converse: a registered session's plain subscriptions are all in the index -/
+
+/-- (b) for plain filters, for every history respecting `OpFresh` and `SchedOK`: every plain filter a registered
+    session holds a subscription for has its entry in the topic index (so the session does receive what it subscribed
+    to — C03).  For `$share` filters the statement is false already sequentially:
+    `IndexSyncConv_seq_false` (`Mochi/Lemmas/BrokerIndexSync.lean`). -/
+theorem C15_plain_subscriptions_indexed_partial (caps : Caps) (ops : List Op)
+    (hf : OpsFresh (init caps) ops) (hok : OpsSchedOK (init caps) ops) : IndexSyncPlain (run (init caps) ops) :=
+  IndexSyncPlain_run_partial caps ops hf hok
+
+theorem C15_plain_subscriptions_indexed_seq (caps : Caps) (ops : List Op) (hseq : SeqOps ops)
+    (hf : OpsFresh (init caps) ops) : IndexSyncPlain (run (init caps) ops) :=
+  IndexSyncPlain_run_seq caps ops hseq hf
+
+example : IndexSyncPlain (run (init {}) demoExpiry) := by decide
+example : IndexSyncConv (run (init {}) demoExpiry) := by decide
+
 end Mochi.Broker
